@@ -125,3 +125,40 @@ def replay_guard(ctx, rid, f, ty, depth=0):
         winfo["via_helper"] = pp.short(w.id)
         return held, winfo
     return False, info
+
+
+def rollback_scope(ctx, rid, fn, fid):
+    """tx::cancel_tx hands exactly this transaction's outputs of this account to the rollback
+    (C05.R2; also a clause of C03: cancelling one transaction must not release another's reservation)."""
+    run = ctx.run
+    UPD = c.LW + "internal::updater::"
+    ro = cfg.find_calls(fn, UPD + "retrieve_outputs")
+    held = False
+    detail = ""
+    if len(ro) == 1:
+        b, t = ro[0]
+        o_txid = vf.origins(fn, t["a"][3])
+        o_acct = vf.origins(fn, t["a"][4])
+        held_id = vf.has_field(o_txid, c.LW + "types::TxLogEntry", "id") and ("agg", "core::option::Option", "Some") in o_txid
+        held_acct = ("arg", 3) in o_acct and ("agg", "core::option::Option", "Some") in o_acct
+        run.instance(rid, {"fn": "tx::cancel_tx", "obligation": "retrieve_outputs(tx_id = Some(tx.id) of the retrieved entry)"}, held=held_id)
+        run.instance(rid, {"fn": "tx::cancel_tx", "obligation": "retrieve_outputs(parent_key_id = Some(the account parameter))"}, held=held_acct)
+        if not held_id:
+            run.finding(Finding(rid, fid, "retrieve_outputs tx_id argument is not Some(tx.id)", site=c.site_of(fn, b), detail=str(sorted(map(str, o_txid)))[:300]))
+        if not held_acct:
+            run.finding(Finding(rid, fid, "retrieve_outputs account argument is not the parent_key_id parameter", site=c.site_of(fn, b)))
+        # outputs passed derive from that call
+        for cb, ct in cfg.find_calls(fn, UPD + "cancel_tx_and_outputs"):
+            oo = vf.origins(fn, ct["a"][3])
+            h = vf.has_call(oo, UPD + "retrieve_outputs") and not vf.has_call(oo, c.WB + "iter")
+            run.instance(rid, {"fn": "tx::cancel_tx", "obligation": "outputs handed to cancel_tx_and_outputs derive from that retrieve_outputs call"}, held=h)
+            if not h:
+                run.finding(Finding(rid, fid, "outputs handed to cancel_tx_and_outputs do not derive from retrieve_outputs(Some(tx.id))", site=c.site_of(fn, cb)))
+            ot = vf.origins(fn, ct["a"][2])
+            h = vf.has_call(ot, UPD + "retrieve_txs")
+            run.instance(rid, {"fn": "tx::cancel_tx", "obligation": "the log entry handed on is the one retrieved"}, held=h)
+            if not h:
+                run.finding(Finding(rid, fid, "log entry handed to cancel_tx_and_outputs is not the retrieved one", site=c.site_of(fn, cb)))
+    else:
+        run.error("%s: expected exactly one retrieve_outputs call in cancel_tx, found %d" % (rid, len(ro)))
+
